@@ -261,6 +261,9 @@ func (g *Gen) Next(m *Model) Op {
 		}
 	case OpGet, OpRefresh:
 		op.Key = g.key()
+		if r.Chance(1, 6) {
+			op.Ctx = 1 + r.Intn(2)
+		}
 		op.Plans[LkLoad] = g.plan(false, nil, nil)
 		op.Plans[LkReload] = g.plan(false, nil, nil)
 	case OpBulkGet, OpBulkRefresh:
